@@ -212,7 +212,13 @@ func (h *Heap) baseFacts(r *Term, key []*Term) {
 	}
 	if h.cls.IsRef {
 		if h.bound != nil {
-			AddFact(r, And(ILe(IntC(0), r), ILt(r, h.bound)))
+			// only locations that existed when this heap version was current hold references to
+			// objects allocated before it; locations of later allocations read as junk here
+			f := And(ILe(IntC(0), r), ILt(r, h.bound))
+			if len(key) > 0 && key[0].sort.K == SInt && len(h.cls.Key) > 0 && (strings.HasPrefix(h.cls.Name, "P:") || strings.HasPrefix(h.cls.Name, "E:") || strings.HasPrefix(h.cls.Name, "M:")) {
+				f = Implies(ILt(key[0], h.bound), f)
+			}
+			AddFact(r, And(ILe(IntC(0), r), f))
 		} else {
 			AddFact(r, ILe(IntC(0), r))
 		}
